@@ -9,6 +9,9 @@ import (
 	"bytes"
 	"context"
 	"fmt"
+	"io"
+	"log/slog"
+	"os"
 	"sync"
 	"testing"
 	"time"
@@ -21,6 +24,11 @@ import (
 	"github.com/bbockelm/cedar/security"
 	"github.com/bbockelm/cedar/stream"
 )
+
+func TestMain(m *testing.M) {
+	slog.SetDefault(slog.New(slog.NewTextHandler(io.Discard, nil)))
+	os.Exit(m.Run())
+}
 
 var levels = []security.SecurityLevel{security.SecurityRequired, security.SecurityPreferred, security.SecurityOptional, security.SecurityNever}
 
@@ -201,12 +209,16 @@ func TestResumeServerPeer(t *testing.T) {
 	cfg := realCfg(security.SecurityRequired, security.SecurityRequired, cache)
 	ca, cb := wire.NewPipe("127.0.0.1:40001", "127.0.0.1:9618")
 	p := peer.New(cb, peer.Config{Role: peer.Server})
-	go p.Run()
+	fin := make(chan error, 1)
+	go func() { fin <- p.Run() }()
 	ctx, cancel := context.WithTimeout(context.Background(), 3*time.Second)
 	defer cancel()
 	neg, err := security.NewAuthenticator(cfg, stream.NewStream(ca)).ClientHandshake(ctx)
 	if err != nil {
 		t.Fatal(err)
+	}
+	if err := <-fin; err != nil {
+		t.Fatalf("peer: %v", err)
 	}
 	key := p.Obs.Key
 	if !bytes.Equal(key, neg.GetSharedSecret()) {
@@ -248,15 +260,16 @@ func TestResumeServerPeer(t *testing.T) {
 func TestResumeClientPeer(t *testing.T) {
 	ca, cb := wire.NewPipe("127.0.0.1:9618", "127.0.0.1:40002")
 	p := peer.New(cb, peer.Config{Role: peer.Client, AuthLevel: "REQUIRED"})
-	go p.Run()
+	fin := make(chan error, 1)
+	go func() { fin <- p.Run() }()
 	ctx, cancel := context.WithTimeout(context.Background(), 3*time.Second)
 	defer cancel()
 	neg, err := security.NewAuthenticator(realCfg(security.SecurityOptional, security.SecurityOptional, nil), stream.NewStream(ca)).ServerHandshake(ctx)
 	if err != nil {
 		t.Fatal(err)
 	}
-	for !p.Done() && p.Obs.Err == nil {
-		time.Sleep(time.Millisecond)
+	if err := <-fin; err != nil {
+		t.Fatalf("peer: %v at %s", err, p.Obs.FailedStep)
 	}
 	sid, _ := p.Obs.PostAuth.Str("Sid")
 	if sid != neg.SessionId {
